@@ -113,12 +113,17 @@ def sortBy (le : Due → Due → Bool) (l : List Due) : List Due := l.foldl (fun
 def sortDue (l : List Due) : List Due :=
   sortBy (fun a b => a.back ≥ b.back) (sortBy (fun a b => a.ctl.prio ≤ b.ctl.prio) l)
 
-/-- run the rules due at the current `simTime` (a rule timestep) in priority order.  The time conditions of rules
-compare against the PREVIOUS RULE TIMESTEP `simTime - rule_timestep`, not against the previous hydraulic solution
-(`WNTRSimulator._check_rules`, repaired code fixes/C04-rule-window.patch): every rule timestep is evaluated once, so the
-windows `(r - rule_timestep, r]` tile the time axis and an `=` premise is seen by exactly one of them. -/
+/-- the "previous time" the time conditions of rules compare against at the rule timestep `r`
+(`WNTRSimulator._check_rules`, repaired code fixes/C04-rule-window.patch): the previous RULE timestep `r - rule_timestep`,
+not the previous hydraulic solution; at the first rule timestep (`r - rule_timestep ≤ 0`) it is -1 so that the window
+also covers the start of the simulation, time 0 -/
+def ruleWindowLo (cfg : Cfg) (r : Int) : Int := if r - cfg.rule ≤ 0 then -1 else r - cfg.rule
+
+/-- run the rules due at the current `simTime` (a rule timestep) in priority order.  Every positive rule timestep is
+evaluated once, so the windows `(ruleWindowLo r, r]` tile the time axis from 0 on and an `=` premise is seen by exactly
+one of them. -/
 def runRules (cfg : Cfg) (s : St) : St :=
-  let due := sortBy (fun a b => a.ctl.prio ≤ b.ctl.prio) (check cfg.startClock (s.simTime - cfg.rule) s.simTime cfg.rules)
+  let due := sortBy (fun a b => a.ctl.prio ≤ b.ctl.prio) (check cfg.startClock (ruleWindowLo cfg s.simTime) s.simTime cfg.rules)
   { s with vals := due.foldl (fun v d => d.run v) s.vals }
 
 /-- move the clock to the next rule timestep `ruleIter * rule_timestep`, advance `_rule_iter`, evaluate the rules -/
